@@ -74,7 +74,11 @@ Proof.
       all: try (rewrite C; exact RF). all: try (rewrite ?RN, ?RI; exact I').
   - (* EData *)
     destruct (data_pinv s (sp_pending sp) dn dd RP) as (s' & o & P' & Hd & Hc & Hp & Hf & I' & A & B & C & D & E).
-    rewrite Hd. cbn [fst snd]. unfold spec_step. rewrite Hp, Hc, Hf.
+    assert (Hf' : find (fun i => negb (s_opt i) && satisfies i dn dd) P' = None).
+    { destruct (find (fun i => negb (s_opt i) && satisfies i dn dd) P') as [i|] eqn:Efo; [|reflexivity].
+      apply find_some in Efo. destruct Efo as (Hi & Hs). apply andb_true_iff in Hs.
+      pose proof (find_none _ _ Hf i Hi) as Hn. simpl in Hn. destruct Hs as (_ & Hs). congruence. }
+    rewrite Hd. cbn [fst snd]. unfold spec_step. rewrite Hp, Hc, Hf'.
     eexists. split; [reflexivity|]. constructor; cbn [with_pending sp_pending sp_handlers sp_now sp_npid sp_inc]; try congruence.
     all: try (rewrite C; exact RF). all: try exact I'.
   - (* ENack *)
